@@ -41,7 +41,7 @@ TABLE = [
     ("aggregation", CBCA, "cbca_intensity", 30.0, [0.5, 30.0, 0.001, 255.0], [0.0, -1.0, -30.0] + WRONG_FLOAT),
     ("aggregation", CBCA, "cbca_distance", 5, [1, 2, 5, 10], [0, -1, -5] + WRONG_INT),
     ("aggregation", CBCA, "aggregation_method", NO, ["cbca"], ["cbcaa", "", None, 1]),
-    ("disparity", WTA, "invalid_disparity", -9999, [-9999, 0, -1, 5.5, "NaN", float("nan")], ["abc", None, [1], {"a": 1}]),
+    ("disparity", WTA, "invalid_disparity", -9999, [-9999, 0, -1, 5.5, "NaN", float("nan"), "inf", "-inf"], ["abc", None, [1], {"a": 1}]),
     ("disparity", WTA, "disparity_method", NO, ["wta"], ["wtaa", "", None, 0]),
     ("refinement", {"refinement_method": "vfit"}, "refinement_method", NO, ["vfit", "quadratic"], ["vfitt", "", None, 2]),
     ("filter", MED, "filter_size", 3, [1, 3, 5, 9], [0, -1, -3, 2, 4] + WRONG_INT),
